@@ -10,6 +10,7 @@ import json, os, shutil, subprocess, sys, time
 
 patch, demo, pids = sys.argv[1], sys.argv[2], sys.argv[3:]
 W = '/tmp/seedcheck-%d' % os.getpid()
+FEAT = ('--features ' + os.environ['SEED_FEATURES']) if os.environ.get('SEED_FEATURES') else ''
 env = dict(os.environ, CARGO_NET_OFFLINE='true')
 
 
@@ -25,7 +26,7 @@ try:
     if have_demo:
         os.makedirs(W + '/purl/tests', exist_ok=True)
         shutil.copy(demo, W + '/purl/tests/demo.rs')
-        rc, out = sh('cargo test -p purl --test demo --offline 2>&1 | tail -5', cwd=W)
+        rc, out = sh('cargo test -p purl --test demo --offline %s 2>&1 | tail -5' % FEAT + '', cwd=W)
         res['demo_passes_unchanged'] = 'test result: ok' in out
         os.remove(W + '/purl/tests/demo.rs')
     rc, out = sh('git apply %s' % patch, cwd=W)
@@ -39,7 +40,7 @@ try:
             res['suite_output'] = out[-600:]
         if have_demo:
             shutil.copy(demo, W + '/purl/tests/demo.rs')
-            rc, out = sh('cargo test -p purl --test demo --offline 2>&1 | tail -8', cwd=W)
+            rc, out = sh('cargo test -p purl --test demo --offline %s 2>&1 | tail -8' % FEAT + '', cwd=W)
             res['demo_fails_patched'] = 'test result: FAILED' in out or 'panicked' in out
             os.remove(W + '/purl/tests/demo.rs')
         for pid in pids:
